@@ -14,7 +14,8 @@ RULE = ("environments = DIP text with 3-7 typed nodes (float/int with units of 7
         "dimension, made well-formed by inserting parentheses, rendered by the Lean renderer (mandatory blanks around binary "
         "operators, random optional blanks) and solved by the real NumericalSolver/LogicalSolver, directly and through DIP text "
         "(x float = (\"expr\") unit, c bool = (\"expr\"), @case (\"expr\")); comparison operands are placed at, within 0.4e-6 of, "
-        "3e-6 off and far off equality, in other units of the same dimension; templates = random text with {{ref}[slice]:fmt} holes; nodes of the environments are modified after their definition; integer nodes of one dimension in different units (m, km, custom) whose "
+        "3e-6 off and far off equality, in other units of the same dimension; templates = random text with {{ref}[slice]:fmt} holes; the custom $units x, y, w are defined with different magnitudes from environment to environment while the same literal texts recur "
+        "(one process, many texts); nodes of the environments are modified after their definition; integer nodes of one dimension in different units (m, km, custom) whose "
         "values are no whole multiples of each other, compared with each other; int nodes defined by expressions (the nearest integer of the exact "
         "result, with expressions that land a few ulp beside an integer); definedness tests of nodes that are only declared / defined as none "
         "when the expression is evaluated (bool node, @case); pairs A == B / A != B "
@@ -140,13 +141,15 @@ def gen_env(rng, custom=None):
         custom = rng.random() < 0.4
     dims = {k: list(v) for k, v in DIMS.items()}
     if custom:
-        lines.append("$unit x = 2 m")
+        # custom units of the same NAME are defined differently from environment to environment (one process, many texts)
+        xf = rng.choice(["2", "2", "4", "0.5", "25"])
+        lines.append("$unit x = %s m" % xf)
         dims["L"].append("[x]")
         if rng.random() < 0.5:
-            lines.append("$unit y = 3 [x]")
+            lines.append("$unit y = %s [x]" % rng.choice(["3", "2", "10"]))
             dims["L"].append("[y]")
         if rng.random() < 0.3:
-            lines.append("$unit w = 5 kg")
+            lines.append("$unit w = %s kg" % rng.choice(["5", "2", "0.1"]))
             dims["M"].append("[w]")
     nodes = {}
     names = ["a", "b", "c", "d", "e", "f", "g"]
@@ -166,7 +169,7 @@ def gen_env(rng, custom=None):
     # (the value in m is not a whole multiple of the other units: 1400 m against 1 km, 1401 m against 700 [x] = 1400 m)
     kk = rng.randint(1, 4)
     v1 = 1000 * kk + rng.choice([400, -400, 300, -300, 0, 499, -499, 1, 401])
-    for n, u, val in [("i1", "m", v1), ("i2", "km", kk)] + ([("i3", "[x]", v1 // 2 + rng.choice([0, 0, 1]))] if custom else []):
+    for n, u, val in [("i1", "m", v1), ("i2", "km", kk)] + ([("i3", "[x]", int(v1 / float(xf)) + rng.choice([0, 0, 1]))] if custom else []):
         lines.append("%s int = %d %s" % (n, val, u))
         nodes[n] = ("int", val, u, "L")
     bval = rng.random() < 0.5
@@ -657,7 +660,7 @@ def gen_cmp(rng, E, units_tab):
         a, b = rng.sample(ints, 2)
         return ["bin", op, ["lit", "{?%s}" % a], ["lit", "{?%s}" % b]]
     delta = rng.choice([0, 0, 4e-7, -4e-7, 3e-6, -3e-6, 0.5, -0.3, 2.0])
-    if r < 0.75 and num_nodes:
+    if r < 0.68 and num_nodes:
         n = rng.choice(num_nodes)
         kind, val, unit, dim = E.nodes[n]
         if unit is None:
@@ -681,9 +684,10 @@ def gen_cmp(rng, E, units_tab):
     # literal with literal
     dim = rng.choice(list(DIMS))
     u1, u2 = rng.choice(E.units[dim]), rng.choice(E.units[dim])
-    v = float(rng.choice(NUMS))
+    # also small magnitudes (the absolute part 1e-8 of the tolerance decides) and negative values
+    v = float(rng.choice(NUMS + ["0.0015", "1e-4", "2e-6", "-2", "-0.5", "-57.3", "-0.0015"]))
     target = v * ((kmap[u1] / kmap[u2]) if u1 and u2 else 1.0) * (1 + delta)
-    return ["bin", op, ["lit", rng.choice([fmt_num(v), NUMS[0]]) if False else fmt_num(v) + (" " + u1 if u1 else "")],
+    return ["bin", op, ["lit", fmt_num(v) + (" " + u1 if u1 else "")],
             ["lit", fmt_num(target) + (" " + u2 if u2 else "")]]
 
 
